@@ -45,7 +45,7 @@ TRUSTED = [
 def extract(ctx):
     """second tie: the decision logic of avocado_i2n/vmnet/netconfig.py (get_allocatable_address, has_interface,
     can_add_interface, add_interface, translate_address, the getter of mask_bit, validate) and of
-    VMNetwork.reattach_interface / integrate_node (avocado_i2n/vmnet/network.py) translated to Lean from the CURRENT source by harness/pygen_pxnet.py (raises
+    VMNetwork.reattach_interface / integrate_node / __init__ (avocado_i2n/vmnet/network.py) translated to Lean from the CURRENT source by harness/pygen_pxnet.py (raises
     pygen.Unsupported when a function left the translated subset / a pinned statement changed; run.py records that as
     a proof problem and searches for a failing input)"""
     import pygen_pxnet
@@ -54,12 +54,13 @@ def extract(ctx):
                          "differs from the one the committed file was generated from (allocate_matches_source, "
                          "hasInterface_matches_source, canAdd_matches_source, addInterface_matches_source, "
                          "translate_matches_source, maskBit_matches_source, validate_matches_source, "
-                         "reattach_matches_source, integrateNode_matches_source are re-checked)")
+                         "reattach_matches_source, integrateNode_matches_source, init_matches_source are re-checked)")
     ctx.extra["regenerated"] = ("lean/I2N/Extracted/GenNet.lean (VMNetconfig.get_allocatable_address, has_interface, "
                                 "can_add_interface, add_interface, translate_address, mask_bit getter, validate), "
-                                "lean/I2N/Extracted/GenNetwork.lean (VMNetwork.reattach_interface, integrate_node) via "
+                                "lean/I2N/Extracted/GenNetwork.lean (VMNetwork.reattach_interface, integrate_node, __init__) via "
                                 "harness/pygen_pxnet.py + harness/pygen.py; obligations validate_matches_source, "
-                                "reattach_matches_source, integrateNode_matches_source (place_, findNc_, placeAll_)")
+                                "reattach_matches_source, integrateNode_matches_source (place_, findNc_, placeAll_), "
+                                "init_matches_source")
 
 
 MAXV = 3   # violations recorded per key (every occurrence is counted in the distribution)
